@@ -133,6 +133,7 @@ func vmRun(fn string, canary int) HarnessRun {
 
 const v2Pkg = ledgerMod + "/internal/api/v2"
 const compilerPkg = ledgerMod + "/internal/machine/script/compiler"
+const batchPkg = ledgerMod + "/internal/engine/utils/batching"
 const v1Pkg = ledgerMod + "/internal/api/v1"
 
 const apiPkg = ledgerMod + "/internal/api"
@@ -171,6 +172,12 @@ func concRun(fn, nfn, dfn, prefix string, quickP, thoroughP int, crash bool, qui
 			return c
 		},
 		Desc: harnessDesc(cmdPkg, dfn, prefix), CanaryShapes: canary}
+}
+
+// onlyShapes restricts a run to the given shapes.
+func onlyShapes(r HarnessRun, shapes []int) HarnessRun {
+	r.Shapes = func(s *Session, tier string) []int { return shapes }
+	return r
 }
 
 // thoroughOnly makes a run contribute jobs in the thorough tier only.
@@ -236,16 +243,26 @@ var specs = map[string]*CheckSpec{
 	},
 	"C05": {
 		ID: "C05", Patterns: []string{cmdPkg}, NeedHelper: true, Instrument: true,
-		Runs:        []HarnessRun{concRun("ZZ_C05", "ZZ_C05N", "ZZ_C05Desc", "", 1, 2, true, []int{0, 1, 2, 3, 4, 5}, []int{0, 3})},
-		Bounds:      concBounds("2 (thorough: also 3) concurrent writes (create on a locked account, create from world only, set/delete metadata, revert), then stop-or-crash, restart on the same store and one more create", true),
+		Runs: []HarnessRun{concRun("ZZ_C05", "ZZ_C05N", "ZZ_C05Desc", "", 1, 2, true, []int{0, 1, 2, 3, 4, 5, 7}, []int{0, 3}),
+			concRun("ZZ_C05Fresh", "ZZ_C05FreshN", "ZZ_C05FreshDesc", "", 1, 1, true, nil, []int{1})},
+		Bounds: func(tier string) map[string]any {
+			b := concBounds("2 (thorough: also 3) concurrent writes (create on a locked account, create from world only, create whose client gives up at an arbitrary moment, set/delete metadata, revert), then stop-or-crash, restart on the same store and one more create", true)(tier)
+			b["from_empty"] = "6 staged histories on a ledger that starts empty (1-2 concurrent writes per stage, stop-or-crash and restart between stages, including restarts while the log holds no transaction); budget 1 in both tiers"
+			return b
+		},
 		Assumptions: concAssume, Encoded: cmdEncoded,
-		Rule:        "at quiescence and again after the restart: log ids L+1.. in insertion order, every hash recomputed from its predecessor, transaction ids N+1.. in log order",
+		Rule:        "at quiescence and again after the restart: log ids L+1.. in insertion order, every hash recomputed from its predecessor, transaction ids N+1.. in log order (from an empty ledger: ids and transaction ids from 0, first entry chained on nothing)",
 		MaxPaths:    func(tier string) int { return 2000000 },
 	},
 	"C06": {
-		ID: "C06", Patterns: []string{cmdPkg}, NeedHelper: true, Instrument: true,
-		Runs:        []HarnessRun{concRun("ZZ_C06", "ZZ_C06N", "ZZ_C06Desc", "", 1, 2, true, []int{0, 1, 2, 3, 6, 7, 10, 11}, []int{0, 6})},
-		Bounds:      concBounds("2 (thorough: also 3) concurrent writes with distinct markers, with and without an injectable InsertLogs failure", true),
+		ID: "C06", Patterns: []string{cmdPkg, batchPkg}, NeedHelper: true, Instrument: true,
+		Runs: []HarnessRun{concRun("ZZ_C06", "ZZ_C06N", "ZZ_C06Desc", "", 1, 2, true, []int{0, 1, 2, 3, 6, 7, 10, 11, 14, 16}, []int{0, 6}),
+			{Pkg: batchPkg, Dir: "internal/engine/utils/batching", Mod: "ledger", Fn: "ZZ_C06Batch", Shapes: rangeShapes(18), Cfg: cmdCfg, Desc: harnessDesc(batchPkg, "ZZ_C06BatchDesc", "batch composition:"), CanaryShapes: []int{3}}},
+		Bounds: func(tier string) map[string]any {
+			b := concBounds("2 (thorough: also 3) concurrent writes with distinct markers (one of them possibly abandoned by its client at an arbitrary moment), with and without an injectable InsertLogs failure", true)(tier)
+			b["batch_composition"] = "Batcher.nextBatch from 0..5 pending items (arbitrary values), maximum batch size 1..3, two more arrivals between the cuts: the real maximum (4096) is a parameter of the same code"
+			return b
+		},
 		Assumptions: append([]string{"a failing InsertLogs persists nothing (one database transaction per batch)"}, concAssume...), Encoded: cmdEncoded,
 		Rule:        "at the instant a write returns success its marker must be in the persisted log; at quiescence acknowledged writes and log entries are in bijection, failed writes left nothing, every entry belongs to a request",
 		MaxPaths:    func(tier string) int { return 2000000 },
@@ -253,10 +270,10 @@ var specs = map[string]*CheckSpec{
 	"C07": {
 		ID: "C07", Patterns: []string{cmdPkg}, NeedHelper: true, Instrument: true,
 		Runs: []HarnessRun{concRun("ZZ_C07", "ZZ_C07N", "ZZ_C07Desc", "", 1, 1, true, nil, []int{0, 1}),
-			thoroughOnly(concRun("ZZ_C07", "ZZ_C07N", "ZZ_C07Desc", "no crash, budget 2:", 2, 2, false, nil, []int{}), "-p2")},
+			thoroughOnly(onlyShapes(concRun("ZZ_C07", "ZZ_C07N", "ZZ_C07Desc", "no crash, budget 2:", 2, 2, false, nil, []int{}), []int{0, 1, 2, 3}), "-p2")},
 		Bounds: func(tier string) map[string]any {
-			b := concBounds("two concurrent writes with one idempotency key (create/create, metadata/metadata, create/metadata, revert/revert), then stop-or-crash, restart and a retry with the same key", true)(tier)
-			b["preemption_budget"] = "1 with the crash decision (both tiers); thorough adds a second pass with budget 2 and no crash (crash x budget 2 does not finish: > 60 min, > 20 GB)"
+			b := concBounds("two concurrent writes with one idempotency key (create/create, metadata/metadata, create/metadata, revert/revert; and create/create or metadata/metadata plus a third, key-less create whose transaction reference equals the key), then stop-or-crash, restart and a retry with the same key", true)(tier)
+			b["preemption_budget"] = "1 with the crash decision (both tiers); thorough adds a second pass with budget 2 and no crash over the four two-request scenarios (crash x budget 2 does not finish: > 60 min, > 20 GB)"
 			return b
 		},
 		Assumptions: concAssume, Encoded: cmdEncoded,
@@ -274,17 +291,19 @@ var specs = map[string]*CheckSpec{
 	"C15": {
 		ID: "C15", Patterns: []string{cmdPkg}, Instrument: true,
 		Runs: []HarnessRun{{Pkg: cmdPkg, Dir: "internal/engine/command", Mod: "ledger", Fn: "ZZ_C15", Shapes: countShapes(cmdPkg, "ZZ_C15N"),
-			Cfg: concCfg(1, 2, false), Desc: harnessDesc(cmdPkg, "ZZ_C15Desc", "lock requests:"), CanaryShapes: []int{0, 5}}},
+			Cfg: concCfg(1, 2, false), Desc: harnessDesc(cmdPkg, "ZZ_C15Desc", "lock requests:"), CanaryShapes: []int{0, 5}},
+			{Pkg: cmdPkg, Dir: "internal/engine/command", Mod: "ledger", Fn: "ZZ_C15Stage", Shapes: countShapes(cmdPkg, "ZZ_C15StageN"),
+				Cfg: concCfg(1, 2, false), Desc: harnessDesc(cmdPkg, "ZZ_C15StageDesc", "staged releases:"), CanaryShapes: []int{0}}},
 		Bounds: func(tier string) map[string]any {
 			p := 1
 			if tier == "thorough" {
 				p = 2
 			}
-			return map[string]any{"requests": "14 populations of 2-3 requests with read/write sets over accounts {x,y}, optionally one request cancelled by a separate thread at an arbitrary moment", "preemptions": p, "threads": "one per request, one per cancellation, main"}
+			return map[string]any{"requests": "14 populations of 2-3 requests with read/write sets over accounts {x,y}, optionally one request cancelled by a separate thread at an arbitrary moment", "staged_releases": "6 populations of 3 requests whose holders release one at a time in a given order; at every rest point a pending request must conflict with a current holder", "preemptions": p, "threads": "one per request, one per cancellation, main"}
 		},
 		Assumptions: concStubs,
 		Encoded:     []string{"command.(*DefaultLocker).Lock", "command.(*lockIntent).tryLock/unlock", "collectionutils.(*LinkedList).Append/RemoveValue/RemoveFirst/FirstNode", "collectionutils.(*LinkedListNode).Remove/Next/Value"},
-		Rule:        "every schedule within the pre-emption bound; the inputs are schedules (decisions), the solver confirms feasibility; exclusion is checked when Lock returns, progress and no-leftover at quiescence",
+		Rule:        "every schedule within the pre-emption bound; the inputs are schedules (decisions), the solver confirms feasibility; exclusion is checked when Lock returns, progress and no-leftover at quiescence; with staged releases, at every rest point no request is pending without a conflicting holder",
 		MaxPaths:    func(tier string) int { return 2000000 },
 	},
 	"C20": {
@@ -358,9 +377,10 @@ var specs = map[string]*CheckSpec{
 		ID: "C10", Patterns: []string{cmdPkg}, NeedHelper: true,
 		Instrument: true,
 		Runs: []HarnessRun{commandRun("ZZ_C10", countShapes(cmdPkg, "ZZ_C10N"), harnessDesc(cmdPkg, "ZZ_C10Desc", "revert scenario:"), []int{0, 5}),
+			commandRun("ZZ_C10Reverse", rangeShapes(8), func(s *Session, i int) string { return fmt.Sprintf("TransactionData.Reverse on %d postings", i) }, []int{4}),
 			concRun("ZZ_C10Race", "ZZ_C10RaceN", "ZZ_C10RaceDesc", "", 1, 2, false, nil, []int{0})},
 		Bounds: func(tier string) map[string]any {
-			return map[string]any{"original_transactions": "9 posting patterns (1-3 postings) x forced/unforced x with/without an intermediate spend of the delivered funds", "amounts_and_balances": "unbounded non-negative integers", "racing_reverts": "2-3 concurrent reverts of one transaction, forced and unforced, pre-emption budget 1 (thorough 2), blocking switches deterministic"}
+			return map[string]any{"reverse": "TransactionData.Reverse on 0..7 postings, arbitrary amounts", "original_transactions": "11 posting patterns (1-5 postings) x forced/unforced x with/without an intermediate spend of the delivered funds", "amounts_and_balances": "unbounded non-negative integers", "racing_reverts": "2-3 concurrent reverts of one transaction, forced and unforced, pre-emption budget 1 (thorough 2), blocking switches deterministic"}
 		},
 		Assumptions: cmdStubs, Encoded: append([]string{"ledger.(*TransactionData).Reverse", "ledger.Postings.Reverse", "ledger.MarkReverts"}, cmdEncoded...),
 		Rule: "create the original, optionally move the funds on, revert (forced or not), revert again; postings, reverted flag, balances and log count compared symbolically",
